@@ -139,7 +139,7 @@ S2_ASSUME = ["single client thread; rayon par_iter bodies run sequentially in on
 def c04(tier):
     combos = [(0, 4, 1, 0), (0, 4, 1, 1), (1, 0, 1, 1), (2, 0, 2, 0), (2, 0, 2, 1), (3, 0, 1, 0), (3, 0, 1, 1), (4, 0, 0, 0), (4, 0, 1, 1), (3, 0, 1, 2), (0, 4, 1, 2)]
     if tier != "quick":
-        combos += [(0, 7, 1, 1), (0, 4, 2, 0), (1, 0, 2, 0), (1, 0, 1, 0), (0, 12, 1, 0)]
+        combos += [(0, 7, 1, 1), (0, 4, 2, 0), (1, 0, 1, 0), (0, 12, 1, 0), (2, 0, 2, 2)]
     jobs = [Job("h_c04::update_read", c, dict(S2), budget_s=3000, validate=30) for c in combos]
     jobs.append(Job("h_c12::update_in_conflict", (6 if tier == "quick" else 10,), dict(S2), budget_s=3000, validate=30))
     jobs.append(Job("h_c04::resubmit_in_conflict", (), dict(S2), budget_s=3000, validate=10))
